@@ -152,7 +152,7 @@ fn main() {
     ctx.stats.merge(st);
     run_property(&prop, &mut ctx);
     // behaviour must not depend on the payload types: generated program with other key / value types
-    for p in ["C03", "C04", "C05", "C06", "C09", "C10", "C11", "C12", "C18"] {
+    for p in ["C03", "C04", "C05", "C06", "C07", "C09", "C10", "C11", "C12", "C13", "C18"] {
         if p == prop {
             progs::payload_independence(&mut ctx, p);
         }
